@@ -6,6 +6,7 @@ From M Require MatchAbs.
 From M Require MatchConc.
 From M Require MatchNumsSpec.
 From M Require MatchNums.
+From M Require Tie.
 From M Require MatchAbs.
 From M Require MatchConc.
 From M Require MatchModel.
@@ -110,4 +111,15 @@ Theorem C03_match_numbers :
 Proof. exact (@MatchNumsSpec.match_numbers). Qed.
 End T_match_numbers.
 Definition C03_match_numbers := @T_match_numbers.C03_match_numbers.
+
+Module T_tie_ctype. Import Tie. Local Open Scope bool_scope. Local Open Scope Z_scope.
+Local Open Scope Z_scope.
+Theorem C03_tie_ctype :
+  same_class MatchModel.islower Generated.gen_cc_islower = true /\ same_class MatchModel.isupper Generated.gen_cc_isupper = true /\
+  same_class MatchModel.isdigit Generated.gen_cc_isdigit = true /\ same_class MatchModel.isspace Generated.gen_cc_isspace = true /\
+  same_class ParserModel.isspace Generated.gen_cc_isspace = true /\
+  map MatchModel.tolower bytes256 = Generated.gen_tolower.
+Proof. exact (@Tie.tie_ctype). Qed.
+End T_tie_ctype.
+Definition C03_tie_ctype := @T_tie_ctype.C03_tie_ctype.
 
